@@ -7,6 +7,10 @@ From VF Require Import C10.Model C10.Proofs.
 From VF Require gen.Gen_C09.
 Local Open Scope N_scope.
 
+Definition alice_history_r : list input :=
+  [ICreateInv 2 3; IRecv (MRequest DX 6 6 2 7 (Some (Doc 7 [8] 9 10))) 17 (Doc 14 [15] 11 16);
+   IRecv (MComplete DX 6) 0 (Doc 0 [] 0 0)].
+
 (* NO RE-POINTING (full).  For every agent state, every peer DID d that resolves to a document there, and EVERY
    sequence of inputs afterwards — messages of any type from anybody, on any thread, carrying any DID, document,
    key or initialState, interleaved with the agent's own operations —, d still resolves to the same document:
@@ -22,21 +26,78 @@ Theorem attribution_index_stable : forall (a : agent) (is : list input) (k : key
 Proof. intros a is k d. exact (final_mono_keys is a k d). Qed.
 Print Assumptions attribution_index_stable.
 
-(* A completed connection record is terminal, in both variants of the code: no input sequence changes its
-   state, thread, own or peer identifier (connection ids are drawn by the agent and are new when drawn). *)
+(* A completed connection record is terminal, in both variants of the code: no input sequence changes its state,
+   thread, own or peer identifier — unless it contains a DIDComm v2 rotation (from_prior) of the peer identifier
+   that verifies under a key of the peer identifier's own document, i.e. the peer's own act: nothing a third
+   party, who does not hold those keys, can send (connection ids are drawn by the agent and are new when drawn). *)
 Theorem completed_is_terminal : forall (v : variant) (is : list input) (a : agent) (c : cid) (r : conn),
-  fresh_ids v a is -> record a c = Some r -> c_state r = SCompleted -> record (final v a is) c = Some r.
+  fresh_ids v a is -> Forall (not_rotating (c_their r)) is ->
+  record a c = Some r -> c_state r = SCompleted -> record (final v a is) c = Some r.
 Proof. exact run_completed_stable. Qed.
 Print Assumptions completed_is_terminal.
 
-(* NO CROSS-TALK.  The record of the exchange on thread (n, t) is untouched by any sequence of inputs that
-   belong to other threads — any number of other exchanges at any stage, in any interleaving, plus anything else
-   that is not addressed to (n, t) —, in both variants of the code. *)
-Theorem no_crosstalk : forall (v : variant) (is : list input) (a : agent) (n : ns) (t : th) (c : cid) (r : conn),
-  Forall (foreign n t c) is -> owns a n t c -> record a c = Some r ->
-  owns (final v a is) n t c /\ record (final v a is) c = Some r.
-Proof. exact run_frame. Qed.
+(* the guard is needed, and is exactly the peer's signature: a rotation signed by the peer moves the identifier, the
+   same message signed by anybody else (signer <> iss) does not *)
+Theorem rotation_by_peer_only :
+  let a := final Fixed agent0 alice_history_r in
+  record a 17 = Some (Conn Their 6 SCompleted 14 7 0) /\
+  record (final Fixed a [IRecv (MRotate 7 90 7 8 15) 0 (Doc 0 [] 0 0)]) 17 = Some (Conn Their 6 SCompleted 14 7 0) /\
+  record (final Fixed a [IRecv (MInit (Doc 90 [91] 9 92) 91 15) 0 (Doc 0 [] 0 0); IRecv (MRotate 7 90 7 91 15) 0 (Doc 0 [] 0 0)]) 17
+    = Some (Conn Their 6 SCompleted 14 90 0) /\
+  record (final Fixed a [IRecv (MInit (Doc 90 [91] 9 92) 91 15) 0 (Doc 0 [] 0 0); IRecv (MRotate 7 90 90 91 15) 0 (Doc 0 [] 0 0)]) 17
+    = Some (Conn Their 6 SCompleted 14 7 0).
+Proof. vm_compute. repeat split. Qed.
+Print Assumptions rotation_by_peer_only.
+
+(* NO CROSS-TALK (repaired code, full).  The record of the exchange on thread (n, t) is untouched by ANY sequence of
+   inputs that are not addressed to thread (n, t) — any number of other exchanges at any stage, in any interleaving,
+   and anything a third party sends on other threads, with any ids inside (rotations of the peer identifier signed by
+   the peer itself excepted, see completed_is_terminal). *)
+Theorem no_crosstalk : forall (is : list input) (a : agent) (n : ns) (t : th) (c : cid) (r : conn),
+  Forall (foreign n t c) is -> Forall (not_rotating (c_their r)) is -> owns a n t c -> record a c = Some r ->
+  owns (final Fixed a is) n t c /\ record (final Fixed a is) c = Some r.
+Proof.
+  intros is a n t c r F NR. exact (run_frame Fixed is a n t c r (c_their r) (or_introl eq_refl) (or_introl eq_refl) NR F).
+Qed.
 Print Assumptions no_crosstalk.
+
+(* The code as found: a request whose thread id (~thread.thid) is new but whose @id is the thread id of an existing
+   exchange passed the state check and re-mapped that thread to a new record (corpus/C10/thread-remap.json). *)
+Theorem no_crosstalk_asis_refuted :
+  let a := final AsIs agent0 [ICreateInv 2 3; ICreateInv 27 28;
+                              IRecv (MRequest DX 6 6 2 7 (Some (Doc 7 [8] 9 10))) 17 (Doc 14 [15] 11 16)] in
+  let i := IRecv (MRequest DX 29 6 27 41 (Some (Doc 41 [20] 21 42))) 43 (Doc 44 [45] 11 46) in
+  foreign Their 6 17 i /\ owns a Their 6 17 /\
+  tget (a_thmap (fst (step AsIs a i))) Their 6 = Some 43 /\
+  (* bob's complete now completes mallory's record and leaves his own at responded *)
+  (let a' := final AsIs a [i; IRecv (MComplete DX 6) 0 (Doc 0 [] 0 0)] in
+   completed_at a' 43 = true /\ completed_at a' 17 = false) /\
+  (let a' := final Fixed (final Fixed agent0 [ICreateInv 2 3; ICreateInv 27 28;
+                              IRecv (MRequest DX 6 6 2 7 (Some (Doc 7 [8] 9 10))) 17 (Doc 14 [15] 11 16)])
+                   [i; IRecv (MComplete DX 6) 0 (Doc 0 [] 0 0)] in
+   completed_at a' 17 = true /\ record a' 43 = None).
+Proof.
+  cbv zeta. split; [split; [reflexivity|cbn; congruence]|].
+  split; [split; [reflexivity|]|].
+  - intros n' t' H.
+    assert (E : a_thmap (final AsIs agent0 [ICreateInv 2 3; ICreateInv 27 28;
+                  IRecv (MRequest DX 6 6 2 7 (Some (Doc 7 [8] 9 10))) 17 (Doc 14 [15] 11 16)]) = [((Their, 6), 17)])
+      by (vm_compute; reflexivity).
+    rewrite E, tget_cons in H. destruct (ns_eqb n' Their && (t' =? 6)) eqn:Q; [|discriminate].
+    apply andb_true_iff in Q. destruct Q as [Q1 Q2]. apply ns_eqb_eq in Q1. apply N.eqb_eq in Q2. auto.
+  - vm_compute. repeat split.
+Qed.
+Print Assumptions no_crosstalk_asis_refuted.
+
+(* ... and holds as found for every history whose requests carry one id (all requests this code base sends) *)
+Theorem no_crosstalk_asis_partial : forall (is : list input) (a : agent) (n : ns) (t : th) (c : cid) (r : conn),
+  Forall ids_agree is -> Forall (foreign n t c) is -> Forall (not_rotating (c_their r)) is ->
+  owns a n t c -> record a c = Some r ->
+  owns (final AsIs a is) n t c /\ record (final AsIs a is) c = Some r.
+Proof.
+  intros is a n t c r H F NR. exact (run_frame AsIs is a n t c r (c_their r) (or_intror H) (or_introl eq_refl) NR F).
+Qed.
+Print Assumptions no_crosstalk_asis_partial.
 
 (* MUTUAL.  Bob (any state B1) handles an invitation of Alice (any state A1) and emits a request; Alice receives
    that request and emits a response; Bob receives that response and emits the complete; Alice receives it.
@@ -50,6 +111,7 @@ Theorem mutual : forall p t i k eA cA cB docB myA A1 B1 midA postA midB postB re
   unused A1 cA -> unused B1 cB ->
   Forall (foreign Their t cA) midA -> Forall (foreign Their t cA) postA ->
   Forall (foreign My t cB) midB -> Forall (foreign My t cB) postB ->
+  Forall (not_rotating (d_id docB)) (midA ++ postA) -> Forall (not_rotating (d_id myA)) (midB ++ postB) ->
   let B2 := fst (step Fixed B1 (IAcceptInv p i k eA cB t docB)) in
   snd (step Fixed B1 (IAcceptInv p i k eA cB t docB)) = [OSend e1 k1 req] ->
   let A2 := fst (step Fixed A1 (IRecv req cA myA)) in
@@ -69,9 +131,9 @@ Theorem mutual : forall p t i k eA cA cB docB myA A1 B1 midA postA midB postB re
     e2 = d_ep docB /\ k2 = d_keys docB /\ e3 = d_ep myA /\ k3 = d_keys myA.
 Proof.
   intros p t i k eA cA cB docB myA A1 B1 midA postA midB postB req resp cmpl e1 k1 e2 k2 e3 k3 xa ya xb yb
-         UA UB FmA FpA FmB FpB B2 H1 A2 H2 B3 B4 H3 A3 A4 A' B'.
+         UA UB FmA FpA FmB FpB NRA NRB B2 H1 A2 H2 B3 B4 H3 A3 A4 A' B'.
   destruct (mutual_run p t i k eA cA cB docB myA A1 B1 midA postA midB postB req resp cmpl e1 k1 e2 k2 e3 k3 xa ya xb yb
-              UA UB FmA FpA FmB FpB H1 H2 H3) as ((rk & RA) & RB & VA & VB & E2 & K2 & E3 & K3 & _).
+              UA UB FmA FpA FmB FpB NRA NRB H1 H2 H3) as ((rk & RA) & RB & VA & VB & E2 & K2 & E3 & K3 & _).
   exists (Conn Their t SCompleted (d_id myA) (d_id docB) rk), (Conn My t SCompleted (d_id docB) (d_id myA) k).
   cbn [c_state c_th c_my c_their]. repeat split; assumption.
 Qed.
@@ -87,6 +149,7 @@ Theorem attributed : forall p t i k eA cA cB docB myA A1 B1 midA postA midB post
   unused A1 cA -> unused B1 cB ->
   Forall (foreign Their t cA) midA -> Forall (foreign Their t cA) postA ->
   Forall (foreign My t cB) midB -> Forall (foreign My t cB) postB ->
+  Forall (not_rotating (d_id docB)) (midA ++ postA) -> Forall (not_rotating (d_id myA)) (midB ++ postB) ->
   let B2 := fst (step Fixed B1 (IAcceptInv p i k eA cB t docB)) in
   snd (step Fixed B1 (IAcceptInv p i k eA cB t docB)) = [OSend e1 k1 req] ->
   let A2 := fst (step Fixed A1 (IRecv req cA myA)) in
@@ -104,9 +167,9 @@ Theorem attributed : forall p t i k eA cA cB docB myA A1 B1 midA postA midB post
     snd (step Fixed B' (IRecv (MPing ka kb) x y)) = [OHandled (d_id docB) (d_id myA)].
 Proof.
   intros p t i k eA cA cB docB myA A1 B1 midA postA midB postB req resp cmpl e1 k1 e2 k2 e3 k3 xa ya xb yb
-         UA UB FmA FpA FmB FpB B2 H1 A2 H2 B3 B4 H3 A3 A4 A' B' FRESH kb ka x y Hb Ha.
+         UA UB FmA FpA FmB FpB NRA NRB B2 H1 A2 H2 B3 B4 H3 A3 A4 A' B' FRESH kb ka x y Hb Ha.
   destruct (mutual_run p t i k eA cA cB docB myA A1 B1 midA postA midB postB req resp cmpl e1 k1 e2 k2 e3 k3 xa ya xb yb
-              UA UB FmA FpA FmB FpB H1 H2 H3) as (_ & _ & _ & _ & _ & _ & _ & _ & KA1 & KA2 & KB1 & KB2).
+              UA UB FmA FpA FmB FpB NRA NRB H1 H2 H3) as (_ & _ & _ & _ & _ & _ & _ & _ & KA1 & KA2 & KB1 & KB2).
   subst A' B' A4 B4 A3 B3 A2 B2.
   split; rewrite ping_step; unfold dispatch.
   - rewrite (KA1 _ Ha), (KA2 FRESH _ Hb). reflexivity.
@@ -133,13 +196,13 @@ Print Assumptions state_machine_is_generated_graph.
 (* alice: invitation 2 (key 3); bob's request (thread 6, DID 7, keys [8], endpoint 9); complete; then mallory's
    request on a fresh thread 29 naming DID 7 with her own key 20 and endpoint 21 (corpus/C10/repoint-request.json) *)
 Definition alice_history : list input :=
-  [ICreateInv 2 3; IRecv (MRequest DX 6 2 7 (Some (Doc 7 [8] 9 10))) 17 (Doc 14 [15] 11 16);
+  [ICreateInv 2 3; IRecv (MRequest DX 6 6 2 7 (Some (Doc 7 [8] 9 10))) 17 (Doc 14 [15] 11 16);
    IRecv (MComplete DX 6) 0 (Doc 0 [] 0 0)].
 Definition mallory_repoint : list input :=
-  [ICreateInv 27 28; IRecv (MRequest DX 29 27 7 (Some (Doc 7 [20] 21 30))) 31 (Doc 32 [33] 11 34)].
+  [ICreateInv 27 28; IRecv (MRequest DX 29 29 27 7 (Some (Doc 7 [20] 21 30))) 31 (Doc 32 [33] 11 34)].
 (* mallory's own exchange (thread 40) with a new DID 41 whose document lists bob's key 8 next to her key 20 *)
 Definition mallory_keysteal : list input :=
-  [ICreateInv 27 28; IRecv (MRequest DX 40 27 41 (Some (Doc 41 [20; 8] 21 42))) 43 (Doc 44 [45] 11 46);
+  [ICreateInv 27 28; IRecv (MRequest DX 40 40 27 41 (Some (Doc 41 [20; 8] 21 42))) 43 (Doc 44 [45] 11 46);
    IRecv (MComplete DX 40) 0 (Doc 0 [] 0 0)].
 
 Theorem no_repoint_asis_refuted :
@@ -171,14 +234,14 @@ Example mutual_nonvacuous :
   let docB := Doc 7 [8] 9 10 in let myA := Doc 14 [15] 11 16 in
   let A1 := final Fixed agent0 [ICreateInv 2 3; ICreateInv 50 51] in
   let B1 := agent0 in
-  let other := IRecv (MRequest DX 60 50 61 (Some (Doc 61 [62] 63 64))) 65 (Doc 66 [67] 11 68) in
+  let other := IRecv (MRequest DX 60 60 50 61 (Some (Doc 61 [62] 63 64))) 65 (Doc 66 [67] 11 68) in
   let B2 := fst (step Fixed B1 (IAcceptInv DX 2 3 11 12 6 docB)) in
-  let A2 := fst (step Fixed A1 (IRecv (MRequest DX 6 2 7 (Some docB)) 17 myA)) in
+  let A2 := fst (step Fixed A1 (IRecv (MRequest DX 6 6 2 7 (Some docB)) 17 myA)) in
   let A3 := final Fixed A2 [other] in
   let A4 := fst (step Fixed A3 (IRecv (MComplete DX 6) 0 (Doc 0 [] 0 0))) in
   let A' := final Fixed A4 mallory_repoint in
-  snd (step Fixed B1 (IAcceptInv DX 2 3 11 12 6 docB)) = [OSend 11 [3] (MRequest DX 6 2 7 (Some docB))] /\
-  snd (step Fixed A1 (IRecv (MRequest DX 6 2 7 (Some docB)) 17 myA)) = [OSend 9 [8] (MResponse DX 6 14 (Some myA) 3)] /\
+  snd (step Fixed B1 (IAcceptInv DX 2 3 11 12 6 docB)) = [OSend 11 [3] (MRequest DX 6 6 2 7 (Some docB))] /\
+  snd (step Fixed A1 (IRecv (MRequest DX 6 6 2 7 (Some docB)) 17 myA)) = [OSend 9 [8] (MResponse DX 6 14 (Some myA) 3)] /\
   snd (step Fixed B2 (IRecv (MResponse DX 6 14 (Some myA) 3) 0 (Doc 0 [] 0 0))) = [OSend 11 [15] (MComplete DX 6)] /\
   record A' 17 = Some (Conn Their 6 SCompleted 14 7 0) /\ resolve A' 7 = Some docB /\
   record A' 31 = Some (Conn Their 29 SAbandoned 0 7 0) /\ completed_at A3 65 = false /\
